@@ -543,6 +543,64 @@ def run_pcv(c):
     return ck.result()
 
 
+
+# ------------------------------------------------------------------------------------------- triangles inside collections
+@st.composite
+def tric_case(draw, tier="quick"):
+    k = draw(st.sampled_from([1, 2, 3]))
+    return {"k": k, "tris": [[[draw(C.ints(5)), draw(C.ints(5))] for _ in range(3)] for _ in range(k)], "bary": [[draw(st.integers(-1, 3)) for _ in range(3)] for _ in range(k)],
+            "fv": [[draw(C.scale()) for _ in range(3)] for _ in range(k)], "fp": [draw(C.scale()) for _ in range(k)], "single_point": draw(st.booleans())}
+
+
+def run_tric(c):
+    """a PolygonCollection of triangles of the plane (every vertex and every query point given by its own representative, also
+    negative ones): contains() of the collection, of the element obtained by indexing (a Triangle, which has its own algorithm)
+    and of the element obtained by iteration give the exact answer at every position"""
+    from fractions import Fraction
+
+    from .. import exact as X
+
+    k = c["k"]
+    V, Q, truth = [], [], []
+    for i in range(k):
+        T = [[Fraction(x) for x in p] for p in c["tris"][i]]
+        if X.orient(T[0], T[1], T[2]) == 0:
+            raise Skip("degenerate triangle")
+        w = [Fraction(x) for x in c["bary"][0 if c["single_point"] else i]]
+        if sum(w) == 0:
+            raise Skip("weights sum to zero")
+        Ti = [[Fraction(x) for x in p] for p in c["tris"][0 if c["single_point"] else i]]
+        q = [sum(w[j] * Ti[j][d] for j in range(3)) / sum(w) for d in range(2)]
+        V.append(np.array([[float(p[0]), float(p[1]), 1.0] for p in T]) * np.array([C.scale_value(f) for f in c["fv"][i]])[:, None])
+        Q.append(np.array([float(q[0]), float(q[1]), 1.0]) * C.scale_value(c["fp"][0 if c["single_point"] else i]))
+        truth.append(X.point_in_polygon(T, q))
+    coll = PolygonCollection(np.stack(V))
+    pts = G.Point(Q[0]) if c["single_point"] else PointCollection(np.stack(Q))
+    ck = Checker()
+    site = "triangle-collection.contains:" + ("single-point" if c["single_point"] else "point-collection")
+    r, f = call(site, coll.contains, pts)
+    if f:
+        return [f]
+    r = np.asarray(r)
+    if not ck.check(r.shape == (k,), site + ":shape", r.shape):
+        return ck.result()
+    ck.check(r.tolist() == truth, site + ":collection-answer", (r.tolist(), truth))
+    for how, elems in (("coll[i]", lambda: [coll[i] for i in range(k)]), ("iteration", lambda: list(coll))):
+        es, f = call(site + ":" + how, elems)
+        if f:
+            ck.add(f)
+            continue
+        for i, e in enumerate(es):
+            if not ck.check(isinstance(e, G.Triangle), site + f":{how}:element-class", type(e).__name__):
+                break
+            ri, f = call(site + f":{how}.contains", e.contains, G.Point(Q[0 if c["single_point"] else i]))
+            if f:
+                ck.add(f)
+                break
+            ck.check(bool(ri) == truth[i], site + f":{how}.contains", (i, bool(ri), truth[i], Q[0 if c["single_point"] else i].tolist(), V[i].tolist()))
+    return ck.result()
+
+
 LAWS = [
     Law("collection_vs_single", lambda tier: case(tier), run, nontrivial, labels, {"quick": 3500, "thorough": 80000},
         "collection result at every position == single-object result there, with broadcasting", shard=250, mandatory=("one-axis", "several-axes", "one-axis+broadcast")),
@@ -556,6 +614,8 @@ LAWS = [
     Law("point_collection_mixed_representatives", lambda tier: mixrep_case(tier), run_mixrep, lambda c: len({min(abs(w), 2) for w in c["w"]}) > 1,
         lambda c: ["mixed" if len({min(abs(w), 2) for w in c["w"]}) > 1 else "uniform"] + (["with-infinite-point"] if 0 in c["w"] else []), {"quick": 500, "thorough": 8000},
         "PointCollection mixing unit, scaled and infinite representatives: arithmetic / normalisation / dist per position == single point", shard=250, mandatory=("mixed", "with-infinite-point")),
+    Law("triangle_collection_contains", lambda tier: tric_case(tier), run_tric, lambda c: True, lambda c: [f"k{c['k']}", "single-point" if c["single_point"] else "point-collection"] + (["negative-representative"] if any(f[0] < 0 for fs in c["fv"] for f in fs) or any(f[0] < 0 for f in c["fp"]) else []),
+        {"quick": 600, "thorough": 8000}, "PolygonCollection of plane triangles with arbitrary representatives: collection answer = Triangle element answer = exact membership", shard=200, mandatory=("negative-representative",)),
     Law("collections_from_vertex_arguments", lambda tier: pcv_case(tier), run_pcv, lambda c: any(c["single"]), lambda c: [c["cls"], f"d{c['d']}"] + (["single-point-first"] if c["single"][0] and not all(c["single"][: (2 if c["cls"] == "SegmentCollection" else None)]) else []),
         {"quick": 600, "thorough": 8000}, "PolygonCollection / SegmentCollection built from vertex arguments mixing single points and point collections in every position", shard=200, mandatory=("single-point-first",)),
     Law("indexing", lambda tier: idx_case(tier), run_idx, lambda c: True, lambda c: [f"{c['kind']}{c['d']}", c["how"], "2-axes" if len(c["shape"]) > 1 else "1-axis"],
